@@ -10,7 +10,9 @@ mod known;
 mod numref;
 mod oracles;
 mod props;
+mod pyshadow;
 mod ref11;
+mod sched;
 mod spaces;
 mod templates;
 mod view;
@@ -34,7 +36,7 @@ fn build_name(args: &[String]) -> String {
 
 const PROPS: &[&str] = &[
     "C01", "C02", "C03", "C04", "C05", "C06", "C07", "C08", "C09", "C10", "C11", "C12", "C13", "C14", "C15",
-    "C16", "C17",
+    "C16", "C17", "C18",
 ];
 
 fn main() {
@@ -156,7 +158,19 @@ fn main() {
                 }
             }
         }
-        "digest" => digest::main(&args),
+        "digest" | "digest-chunk" | "digest-list" | "history-inputs" | "history" => digest::main(&args),
+        "sched" => sched::main(&args),
+        "enums" => {
+            use strum::IntoEnumIterator;
+            let tt: serde_json::Map<String, serde_json::Value> =
+                sas_lexer::TokenType::iter().map(|t| (t.to_string(), json!(t as u16))).collect();
+            let ch: serde_json::Map<String, serde_json::Value> =
+                sas_lexer::TokenChannel::iter().map(|t| (t.to_string(), json!(t as u8))).collect();
+            let ek: serde_json::Map<String, serde_json::Value> =
+                sas_lexer::error::ErrorKind::iter().map(|t| (t.to_string(), json!(t as u16))).collect();
+            println!("{}", json!({"token_type": tt, "channel": ch, "error_kind": ek}));
+        }
+        "c20-inputs" | "pyshadow" => pyshadow::main(&args),
         "dump" => {
             let input = match arg_value(&args, "--input-file") {
                 Some(p) => std::fs::read_to_string(p).expect("read input"),
